@@ -25,8 +25,12 @@ def load():
         return {}
 
 
+SKIPPED_KEY = "//rewrites-skipped-at-baseline"
+
+
 def update(repo="/repo"):
     base = {}
+    skipped = {}
     cdir = os.path.join(ROOT, "contracts")
     for fn in sorted(os.listdir(cdir)):
         if not fn.endswith(".vrs") or fn.startswith("."):
@@ -37,6 +41,12 @@ def update(repo="/repo"):
         if hard:
             raise SystemExit("%s: rewrite directives without a match on the baseline tree (typo or stale template): %r" % (unit, hard))
         base[unit] = {f["name"]: f.get("closures_unannotated", 0) for f in u.functions if f.get("closures_unannotated", 0)}
+        # optional rewrites (alternative spellings a template anticipates) that have no match on the baseline tree: a rewrite
+        # that is skipped HERE carries nothing into the committed proof, so its absence later is not a lost proof ingredient
+        opt = sorted([w.get("item"), w.get("rule"), w.get("pattern")] for w in getattr(u, "skipped_rewrites", []))
+        if opt:
+            skipped[unit] = opt
+    base[SKIPPED_KEY] = skipped
     with open(PATH, "w") as f:
         json.dump(base, f, indent=1, sort_keys=True)
         f.write("\n")
@@ -46,4 +56,4 @@ def update(repo="/repo"):
 if __name__ == "__main__":
     if len(sys.argv) > 1 and sys.argv[1] == "update":
         b = update(os.environ.get("VF_REPO", "/repo"))
-        print("closure baseline: %d units, %d functions with contract-less closures" % (len(b), sum(len(v) for v in b.values())))
+        print("closure baseline: %d units (incl. the skipped-rewrite record), %d functions with contract-less closures" % (len(b), sum(len(v) for k, v in b.items() if k != SKIPPED_KEY)))
